@@ -87,6 +87,28 @@ def is_cast(prog, f, v):
     return False
 
 
+PRESERVING = ('pad', 'swapaxes', 'transpose', 'moveaxis', 'reshape', 'ascontiguousarray', 'copy', 'squeeze', 'ravel', 'flatten', 'take', 'roll', 'flip', 'concatenate',
+              'stack', 'vstack', 'hstack', 'atleast_2d', 'expand_dims', 'cumsum', 'diff', 'negative', 'abs', 'absolute', 'sort')
+
+
+def keeps_dtype(v, raw):
+    """the value is an array with the dtype of one of the raw arrays: a slice / layout operation / padding / sum or difference of
+    raw arrays (comparisons, where(), arg* and casts give arrays of another kind and are not followed)"""
+    if isinstance(v, ast.Name):
+        return v.id in raw
+    if isinstance(v, ast.Subscript):
+        return keeps_dtype(v.value, raw)
+    if isinstance(v, ast.Attribute) and v.attr == 'T':
+        return keeps_dtype(v.value, raw)
+    if isinstance(v, ast.BinOp) and isinstance(v.op, (ast.Add, ast.Sub)):
+        return keeps_dtype(v.left, raw) and keeps_dtype(v.right, raw)
+    if isinstance(v, ast.Call) and norm(v.func).split('.')[-1] in PRESERVING and not any(k.arg == 'dtype' for k in v.keywords):
+        if isinstance(v.func, ast.Attribute) and norm(v.func.value).split('.')[0] not in ('_np', 'np', 'numpy'):
+            return keeps_dtype(v.func.value, raw)
+        return bool(v.args) and keeps_dtype(v.args[0], raw)
+    return False
+
+
 def array_params(prog, f, depth=0):
     """parameters the function (or a validation helper it hands them to) checks to be numpy arrays"""
     out = set()
@@ -137,6 +159,16 @@ def d2(ctx, prog):
                                                     f'decrease (and narrow signed ones on large swings), so the sign of the slope is wrong', f.where(n))
                         else:
                             ctx.ok('C19-D2', key, 'difference taken after the float64 cast', f.where(n))
+                    if isinstance(n, ast.Call) and norm(n.func).split('.')[-1] in ('cumsum', 'nancumsum', 'cumprod') and modname.endswith('moving_operators'):
+                        src_ = n.args[0] if (n.args and norm(n.func).split('.')[0] in ('_np', 'np', 'numpy')) else (n.func.value if isinstance(n.func, ast.Attribute) else None)
+                        if isinstance(src_, ast.Name) and src_.id in arrays:
+                            n_sinks += 1
+                            key = f'{f.key}::{norm(n)[:60]}'
+                            if src_.id in raw:
+                                ctx.fail('C19-D2', key, f'`{norm(n)[:60]}` accumulates the raw parameter `{src_.id}` in its own dtype: a float32 / float16 running sum over the whole '
+                                                        f'axis loses the low-order digits the window difference needs (it is not cast to float64 first)', f.where(n))
+                            else:
+                                ctx.ok('C19-D2', key, 'running sum taken after the float64 cast', f.where(n))
                     if isinstance(n, ast.BinOp) and isinstance(n.op, (ast.Pow, ast.Mult)):
                         ops = [o for o in (n.left, n.right) if isinstance(o, ast.Name) and o.id in arrays]
                         if not ops:
@@ -151,6 +183,19 @@ def d2(ctx, prog):
                                                     f'float32 loses precision) - it is not cast to float64 first', f.where(n))
                         else:
                             ctx.ok('C19-D2', key, 'operand was replaced by its float64 cast before the power/product', f.where(n))
+                if isinstance(st, ast.Assign) and len(st.targets) == 1 and isinstance(st.targets[0], ast.Name) and st.targets[0].id not in f0.params:
+                    # locals derived from the arrays: a float64 cast gives a clean array, anything else computed from a raw array is raw
+                    tg_ = st.targets[0].id
+                    reads_ = astutil.value_names_read(st.value)
+                    if is_cast(prog, f, st.value):
+                        arrays.add(tg_)
+                        raw.discard(tg_)
+                    elif keeps_dtype(st.value, raw):
+                        arrays.add(tg_)
+                        raw.add(tg_)
+                    elif reads_ & arrays and isinstance(st.value, (ast.Call, ast.Subscript, ast.BinOp)):
+                        arrays.add(tg_)
+                        raw.discard(tg_)
                 if isinstance(st, ast.Assign):
                     tg = st.targets[0]
                     if isinstance(tg, ast.Name) and tg.id in raw and is_cast(prog, f, st.value):
@@ -309,6 +354,103 @@ def d4(ctx, prog):
     return n
 
 
+def d5(ctx, prog):
+    """find_width: the bounding samples selected for the gap search are, for Direction.POSITIVE, those at or below the threshold and,
+    for Direction.NEGATIVE, those at or above it - so that the runs in between are *strictly* beyond the threshold.  The selection
+    condition (locals expanded) is evaluated for both directions x (sample below / on / above the threshold) x threshold sign."""
+    PD = 'scared.signal_processing.peaks_detection'
+    f = prog.need_func(PD, 'find_width')
+    from .. import enumtab
+    dirs = {}
+    dci = prog.need_class(PD, 'Direction')
+    for nm, v in dci.class_assigns.items():
+        from ..model import const_value
+        c = const_value(v)
+        if isinstance(c, int):
+            dirs[nm] = c
+    if set(dirs) != {'POSITIVE', 'NEGATIVE'}:
+        raise AnalysisError('Direction members changed')
+    defs = astutil.local_defs(f.node)
+    wh = [c for c in ast.walk(f.node) if isinstance(c, ast.Call) and norm(c.func).split('.')[-1] in ('where', 'nonzero', 'flatnonzero') and c.args]
+    cond = None
+    for c in wh:
+        e = astutil.expand_locals(c.args[0], defs)
+        names = astutil.names_read(e)
+        if 'data' in names and 'threshold' in names:
+            cond = (c, e)
+            break
+    key = f'{f.key}::bounding samples'
+    if cond is None:
+        ctx.undecided('C19-D5', key, 'the selection of the bounding samples (a condition on data and threshold) was not found', f.where())
+        return 0
+
+    class U(Exception):
+        pass
+
+    def ev(e, env):
+        if isinstance(e, ast.Constant):
+            return e.value
+        if isinstance(e, ast.Name):
+            if e.id in env:
+                return env[e.id]
+            raise U(f'name {e.id}')
+        if isinstance(e, ast.Attribute):
+            t = norm(e)
+            if t in env:
+                return env[t]
+            if isinstance(e.value, ast.Name) and e.value.id == 'Direction' and e.attr in dirs:
+                return ('DIR', e.attr)
+            raise U(f'attribute {t}')
+        if isinstance(e, ast.UnaryOp):
+            v = ev(e.operand, env)
+            if isinstance(e.op, (ast.Invert, ast.Not)) and isinstance(v, bool):
+                return not v
+            if isinstance(e.op, ast.USub) and not isinstance(v, bool):
+                return -v
+            raise U('unary operator')
+        if isinstance(e, ast.BinOp) and isinstance(e.op, (ast.Mult, ast.Sub, ast.Add)):
+            l, r = ev(e.left, env), ev(e.right, env)
+            if isinstance(l, tuple) or isinstance(r, tuple):
+                raise U('arithmetic on a direction')
+            return l * r if isinstance(e.op, ast.Mult) else (l - r if isinstance(e.op, ast.Sub) else l + r)
+        if isinstance(e, ast.Compare) and len(e.ops) == 1:
+            import operator
+            l, r = ev(e.left, env), ev(e.comparators[0], env)
+            ops = {ast.Eq: operator.eq, ast.NotEq: operator.ne, ast.Lt: operator.lt, ast.LtE: operator.le, ast.Gt: operator.gt, ast.GtE: operator.ge, ast.Is: operator.eq, ast.IsNot: operator.ne}
+            if type(e.ops[0]) in ops:
+                return bool(ops[type(e.ops[0])](l, r))
+        if isinstance(e, ast.IfExp):
+            return ev(e.body if ev(e.test, env) else e.orelse, env)
+        if isinstance(e, ast.BoolOp):
+            vs = [ev(v, env) for v in e.values]
+            return all(vs) if isinstance(e.op, ast.And) else any(vs)
+        if isinstance(e, ast.Call) and norm(e.func).split('.')[-1] in ('logical_not', 'invert') and len(e.args) == 1:
+            return not ev(e.args[0], env)
+        if isinstance(e, ast.Call) and norm(e.func).split('.')[-1] in ('logical_and', 'bitwise_and', 'logical_or', 'bitwise_or') and len(e.args) == 2:
+            a, b = ev(e.args[0], env), ev(e.args[1], env)
+            return (a and b) if 'and' in norm(e.func) else (a or b)
+        raise U(f'expression `{norm(e)[:40]}`')
+    bad = []
+    n = 0
+    try:
+        for dname, dval in dirs.items():
+            for thr in (-5, 0, 5):
+                for rel in (-1, 0, 1):
+                    n += 1
+                    env = {'data': thr + rel, 'threshold': thr, 'direction': ('DIR', dname), 'direction.value': dval, 'sign': dval}
+                    got = ev(cond[1], env)
+                    want = rel <= 0 if dname == 'POSITIVE' else rel >= 0
+                    if bool(got) != want:
+                        where_ = {-1: 'below', 0: 'exactly on', 1: 'above'}[rel]
+                        bad.append(f'Direction.{dname}, threshold {thr}: a sample {where_} the threshold is {"" if got else "not "}taken as a bounding sample')
+    except U as e:
+        ctx.undecided('C19-D5', key, f'selection condition `{norm(cond[1])[:70]}` not evaluable: {e}', f.where(cond[0]))
+        return 0
+    ctx.check(not bad, 'C19-D5', key, f'{bad[0] if bad else ""}: the runs returned are then not the maximal runs strictly beyond the threshold ({len(bad)} of {n} cases differ)',
+              f'`{norm(cond[1])[:60]}`: POSITIVE brackets with samples <= threshold, NEGATIVE with samples >= threshold ({n} cases)', f.where(cond[0]))
+    return n
+
+
 def run(ctx, prog):
     ctx.rule('C19-D1', 'peak filter: candidate positions never overwritten, no possibly-negative sentinel used as position/index, returns a selection of the candidates')
     ctx.rule('C19-D2', 'powers/products of array parameters happen after the float64 cast')
@@ -321,3 +463,5 @@ def run(ctx, prog):
     ctx.rule('C19-D4', 'axis-parameter discipline: axis-wise operations receive the axis parameter, or a literal axis k of an array into which the requested axis was moved')
     ctx.floor('axis-wise operations judged', d4(ctx, prog), 2)
     ctx.floor('in-place effects judged', n3, 2)
+    ctx.rule('C19-D5', 'find_width brackets its runs with the samples at or below (POSITIVE) / at or above (NEGATIVE) the threshold: truth table over direction x position relative to the threshold x threshold sign')
+    ctx.floor('find_width bounding-sample cases', d5(ctx, prog), 18)
